@@ -37,7 +37,7 @@ theorem encode16_total (s : Str) (hv : ValidStr s) : ∃ u, encode16 s = .ok u :
 /-- …and the branch rejects exactly code points above 0x10FFFF. -/
 theorem encode16_rejects_out_of_range (c : Nat) (cs : Str) (h : c > 0x10FFFF) :
     encode16 (c :: cs) = .error .valueError := by
-  rw [encode16]
+  rw [encode16_cons]
   have h1 : c > 0xFFFF := by omega
   simp [h1, h]
 
@@ -85,7 +85,7 @@ theorem string_stops_at_first_zero (w : Width) (mem : Units) (maxlen arrayLen : 
     (hl : effLength maxlen arrayLen = some len) (h : len ≤ mem.length) :
     ffiString w mem maxlen arrayLen = toPython w ((mem.take len).takeWhile nz) := by
   have hc : cstringUnits w mem (some len) = .ok ((mem.take len).takeWhile nz) := by
-    unfold cstringUnits
+    rw [cstringUnits_some]
     by_cases hw : w = Width.w1
     · simp only [hw, if_true, scanMemchr_spec mem len (Or.inl h), take_takeWhile_length]
     · simp only [hw, if_false, scanLoop_spec mem len (Or.inl h), take_takeWhile_length]
@@ -126,16 +126,17 @@ unit (which must exist in the memory the pointer may read). -/
 theorem string_unbounded_stops_at_first_zero (w : Width) (mem : Units) (h : 0 ∈ mem) :
     ffiString w mem none none = toPython w (mem.takeWhile nz) := by
   have hc : cstringUnits w mem none = .ok (mem.takeWhile nz) := by
-    unfold cstringUnits
+    rw [cstringUnits_none]
     simp only [scanUnbounded_spec mem h]
     have := take_takeWhile_length nz mem mem.length
     simp only [List.take_length] at this
     rw [this]
-  simp only [ffiString, effLength, hc]
+  simp only [ffiString, effLength_eq, hc]
 
 /-- `maxlen`, when given, wins over the array length (even when larger). -/
 theorem string_window_is_maxlen_else_array (maxlen arrayLen : Option Nat) :
-    effLength maxlen arrayLen = (match maxlen with | some m => some m | none => arrayLen) := rfl
+    effLength maxlen arrayLen = (match maxlen with | some m => some m | none => arrayLen) :=
+  effLength_eq maxlen arrayLen
 
 example : ffiString .w2 [0x61, 0xD83D, 0xDE00, 0, 0x62, 0] none (some 6) = .ok (.str [0x61, 0x1F600]) := by decide
 example : ffiString .w1 [0x61, 0x62, 0x63, 0] (some 2) (some 4) = .ok (.bytes [0x61, 0x62]) := by decide
@@ -195,7 +196,7 @@ theorem assign_wrong_kind_raises (w : Width) (ctLength : Option Nat) (mem : Unit
     induction s with
     | nil => simp [encode16] at h
     | cons c cs ih =>
-      rw [encode16] at h
+      rw [encode16_cons] at h
       split at h
       · split at h
         · simp at h
